@@ -416,7 +416,22 @@ func opaquePayloadOnVerify(c *Check, fmts []format) {
 		for _, s := range pg.States {
 			for _, e := range s.Out {
 				for _, l := range e.Labels {
-					if l.Kind != "call" || l.T == nil || !strings.HasPrefix(l.T.Name, "(*"+jwtPkg+".Parser).Parse") {
+					if l.Kind != "call" || l.T == nil {
+						continue
+					}
+					if l.T.Name == jwtPkg+".Parse" || l.T.Name == jwtPkg+".ParseWithClaims" {
+						// the package-level form: the options follow the key function
+						n++
+						where := c.P.pos(l.Node.Pos)
+						has := map[string]bool{}
+						for _, a := range l.T.Args {
+							has[strings.TrimPrefix(a.Name, jwtPkg+".")] = true
+						}
+						c.add("O-C08.4", "JWS verification does not interpret the payload as JWT claims", "the JWT parse call of Verify passes WithoutClaimsValidation (otherwise a signed payload with a member exp/nbf/iat fails to verify)", has["WithoutClaimsValidation"], where, "call: "+l.T.Key())
+						c.add("O-C08.4", "JWS verification decodes payload numbers losslessly", "the JWT parse call of Verify passes WithJSONNumber (otherwise a signed payload holding a number beyond float64, e.g. 1e400, fails to verify although Sign accepted it)", has["WithJSONNumber"], where, "call: "+l.T.Key())
+						continue
+					}
+					if !strings.HasPrefix(l.T.Name, "(*"+jwtPkg+".Parser).Parse") {
 						continue
 					}
 					n++
